@@ -101,13 +101,17 @@ left its `noerr` loop, `SetReadOnly` returned `ErrClosed`; `Close` (thread 1) is
 def srLeakSt : St :=
   { ws := [.ret false, .clAcq], tok := true, ehTok := true, closed := true, eh := .exited }
 
-theorem srLeakRun : Steps Cfg.asIs (init 2) srLeakSt := by
-  have h := Steps.refl (cfg := Cfg.asIs) (init 2)
-  have h := h.step (Step.startSR _ 0 rfl)
+theorem srLeakRun (cfg : Cfg) (hf : cfg.setReadOnlyReleasesOnClose = false) :
+    Steps cfg (init 2) srLeakSt := by
+  have h := Steps.refl (cfg := cfg) (init 2)
+  have h := h.step (Step.startSR _ 0 rfl rfl)
   have h := h.step (Step.selTok _ 0 .srSel .srSet rfl rfl rfl)
   have h := h.step (Step.startClose _ 1 rfl)
   have h := h.step (Step.ehExit _ (by decide) rfl)
-  have h := h.step (Step.srClosed _ 0 rfl rfl)
+  have e := Step.srClosed (cfg := cfg)
+    { ws := [.srSet, .clCheckTr], tok := true, ehTok := true, closed := true, eh := .exited } 0 rfl rfl
+  simp only [hf, Bool.false_and] at e
+  have h := h.step e
   have h := h.step (Step.clCheckTr _ 1 rfl)
   exact h
 
